@@ -709,7 +709,7 @@ impl<'a> Gen<'a> {
         name
     }
     fn loop_var(&mut self, fx: &Fx, p: &str) -> String {
-        if self.shadow && self.rng.chance(1, 3) {
+        if self.shadow && self.rng.chance(1, 2) {
             if let Some(v) = self.pick_var(fx, |v| !v.global && matches!(v.k, K::Any)) {
                 self.feat("shadowing_loop_variable");
                 return v.name;
@@ -1238,7 +1238,7 @@ pub fn gen_program(rng: &mut Rng, feats: &mut BTreeMap<String, u64>, allow_shado
     globals.push(Var { name: "t1".into(), k: K::Tab, ro: false, global: true });
     globals.push(Var { name: "gf".into(), k: K::Fn(1, 0), ro: false, global: true });
     let reals = rng.chance(1, 4);
-    let shadow = allow_shadow && rng.chance(1, 5);
+    let shadow = allow_shadow && rng.chance(1, 3);
     let budget = 60 + rng.below(200) as i32;
     let mut g = Gen { rng, sigs, mods, globals, budget, nv, reals, shadow, feats: BTreeMap::new() };
     if nglobals > 16 {
@@ -1309,7 +1309,8 @@ pub fn gen_program(rng: &mut Rng, feats: &mut BTreeMap<String, u64>, allow_shado
 pub fn gen(a: &Args) {
     let mut rng = Rng::new(a.seed);
     let mut w = CaseWriter::new(&a.out, "C01Check", 12);
-    let allow_shadow = std::env::var("C01_SHADOW").is_ok();
+    // shadowing was a known class (R-4) and is an ordinary part of the stream since its repair
+    let allow_shadow = std::env::var("C01_NO_SHADOW").is_err();
     // fixed corpus first: the witnesses of the findings of this check (findings/C01/index.json)
     let mut corpus: Vec<(&str, Module)> = CORPUS
         .iter()
